@@ -20,8 +20,10 @@ SCR = os.environ.get("SEED_SCR", "/tmp/seedchk")
 PY = "/venv/bin/python"
 
 
-def sh(cmd, cwd=None, timeout=3600):
-    p = subprocess.run(cmd, cwd=cwd, shell=isinstance(cmd, str), capture_output=True, text=True, timeout=timeout)
+def sh(cmd, cwd=None, timeout=3600, env=None):
+    e = dict(os.environ)
+    e.update(env or {})
+    p = subprocess.run(cmd, cwd=cwd, shell=isinstance(cmd, str), capture_output=True, text=True, timeout=timeout, env=e)
     return p.returncode, (p.stdout + p.stderr)
 
 
@@ -49,13 +51,13 @@ def confirm(name):
     sh(["git", "-C", SCR, "checkout", "-q", "--detach", subprocess.check_output(["git", "-C", REPO, "rev-parse", "HEAD"], text=True).strip()])
     sh(["git", "-C", SCR, "checkout", "--", "."])
     demo = os.path.join(d, "demo.py")
-    rc0, out0 = sh([PY, demo], cwd=SCR)
+    rc0, out0 = sh([PY, demo], cwd=SCR, env={"PYTHONPATH": SCR})   # a demo kept outside the tree imports the tree under test
     rca, outa = sh(["git", "-C", SCR, "apply", os.path.join(d, "patch.diff")])
     if rca != 0:
         rca, outa = sh(["git", "-C", SCR, "apply", "--3way", os.path.join(d, "patch.diff")])
     res = {"applies": rca == 0, "demo_clean_exit": rc0}
     if rca == 0:
-        rc1, out1 = sh([PY, demo], cwd=SCR)
+        rc1, out1 = sh([PY, demo], cwd=SCR, env={"PYTHONPATH": SCR})
         res["demo_changed_exit"] = rc1
         res["demo_changed_tail"] = out1.strip().split("\n")[-1][:300]
         rct, outt = sh([PY, "-m", "pytest", "-q", "-p", "no:cacheprovider", "--timeout=900"], cwd=SCR, timeout=1800)
